@@ -175,7 +175,7 @@ pub fn cell_to_children(index: u64, child_resolution: Option<i32>) -> Result<Vec
         segment,
         s,
         resolution: current_resolution,
-    } = cell;
+    } = cell.clone();
     let new_resolution = child_resolution.unwrap_or(current_resolution + 1);
 
     if new_resolution < current_resolution {
@@ -193,9 +193,10 @@ pub fn cell_to_children(index: u64, child_resolution: Option<i32>) -> Result<Vec
         ));
     }
 
-    // If target resolution equals current resolution, return the original cell
+    // If target resolution equals current resolution, return the original cell (in canonical form: bits that
+    // are not part of the cell, which deserialize ignores, are not echoed back)
     if new_resolution == current_resolution {
-        return Ok(vec![index]);
+        return Ok(vec![serialize(&cell)?]);
     }
 
     let mut new_origin_ids = vec![origin_id];
@@ -251,7 +252,7 @@ pub fn cell_to_parent(index: u64, parent_resolution: Option<i32>) -> Result<u64,
         segment,
         s,
         resolution: current_resolution,
-    } = cell;
+    } = cell.clone();
     let new_resolution = parent_resolution.unwrap_or(current_resolution - 1);
 
     // Special case: parent of resolution 0 cells is the world cell
@@ -274,7 +275,7 @@ pub fn cell_to_parent(index: u64, parent_resolution: Option<i32>) -> Result<u64,
     }
 
     if new_resolution == current_resolution {
-        return Ok(index);
+        return serialize(&cell);
     }
 
     let resolution_diff = current_resolution - new_resolution;
